@@ -1,24 +1,26 @@
 (* C20 model: sugar.data.submat (sugar/data/__init__.py:61-100) and _submat_files (:56-58).
    The bundled files are the regenerated raw bytes of G_submat_<k>.v / G_submat_index.v; only the control flow
    (name resolution, text layer, line filter, header, per-row split/zip/convert, dict building) is written by hand.
-   No proofs here. Python str is modelled on ASCII (domain predicate [all_ascii]). *)
+   No proofs here. The content of a file is the DECODED text (what open(fname).read() returns under the UTF-8 default
+   encoding), modelled on the code points 0..255 (Latin-1 range), one byte per code point; names are ASCII. *)
 From Coq Require Import List ZArith NArith Bool.
 From Coq.Strings Require Import Byte.
 Import ListNotations.
 From SV Require Import Text G_submat_index.
 
-(* ---------------------------------------------------------------- CPython str primitives (ASCII range) *)
+(* ---------------------------------------------------------------- CPython str primitives (code points 0..255) *)
 
-(* str.isspace / the separator set of str.split() and str.strip() for code points < 128 *)
+(* str.isspace / the separator set of str.split() and str.strip() for code points < 256:
+   \t \n \v \f \r, \x1c-\x1f, space, NEL (\x85), NBSP (\xa0) *)
 Definition is_ws (c : byte) : bool :=
   match c with
-  | x09 | x0a | x0b | x0c | x0d | x1c | x1d | x1e | x1f | x20 => true
+  | x09 | x0a | x0b | x0c | x0d | x1c | x1d | x1e | x1f | x20 | x85 | xa0 => true
   | _ => false
   end.
-(* line boundaries of str.splitlines() for code points < 128 (\x1f is white space but not a line boundary) *)
+(* line boundaries of str.splitlines() for code points < 256 (\x1f and \xa0 are white space but no line boundary) *)
 Definition is_linebreak (c : byte) : bool :=
   match c with
-  | x0a | x0b | x0c | x0d | x1c | x1d | x1e => true
+  | x0a | x0b | x0c | x0d | x1c | x1d | x1e | x85 => true
   | _ => false
   end.
 Definition is_ascii (c : byte) : bool := N.ltb (Byte.to_N c) 128.
@@ -331,7 +333,7 @@ Fixpoint render_with (e : eol) (final : bool) (f : list aline) : str :=
                                 | _ :: _ => eol_str e ++ render_with e final r
                                 end
   end.
-(* white space that does not end a line: space, tab, \x1f *)
+(* white space that does not end a line: space, tab, \x1f, \xa0 *)
 Definition is_inline_ws (c : byte) : bool := is_ws c && negb (is_linebreak c).
 Definition no_linebreak (s : str) : bool := forallb (fun c => negb (is_linebreak c)) s.
 Definition nonempty (s : str) : bool := match s with [] => false | _ => true end.
@@ -362,10 +364,10 @@ Definition is_int_num (v : num) : bool := match v with NInt _ => true | NDec _ _
 Definition row_uniform (vs : list num) : bool := forallb is_int_num vs || forallb (fun v => negb (is_int_num v)) vs.
 
 (* ---------------------------------------------------------------- domain predicates *)
-(* file content: ASCII, parses without ValueError, header letters and row letters pairwise different *)
+(* file content (decoded text, code points 0..255): parses without ValueError, header letters and row letters pairwise
+   different *)
 Definition wf_content (raw : str) : bool :=
-  all_ascii raw
-  && match parse raw with Some _ => true | None => false end
+  match parse raw with Some _ => true | None => false end
   && nodupb (header_of raw) && nodupb (map first_word (data_lines raw)).
 (* a name that cannot be the path of a regular file when the working directory is empty: ASCII, not absolute, and
    not leaving the working directory through ".." (whether such a path is a file depends on the machine) *)
